@@ -58,6 +58,18 @@ def action_coverage(tlc_out, module):
     return cov, [d for n, d in defs]
 
 
+def cleanup_tlc_droppings(prefixes):
+    """TLC writes <Module>_TTrace_<time>.tla/.bin next to the specification whenever it reports an error
+    (every rejected trace chunk): remove them so that the spec directory stays clean."""
+    import glob
+    for pre in prefixes:
+        for f in glob.glob(os.path.join(SPEC, pre + "*_TTrace_*")):
+            try:
+                os.remove(f)
+            except OSError:
+                pass
+
+
 def build_driver():
     # header-only subsystem + the exception classes; built with ASan/UBSan so that an out-of-range
     # read or write inside a routine ends the run with a Crash event instead of going unnoticed
@@ -137,13 +149,13 @@ def run(tier, seed):
     lem = _write(os.path.join(wd, "lemmas.cfg"),
                  "SPECIFICATION Spec\nCONSTANTS\n  D = 2\n  VMax = 1\n  VS = {0, 1}\n  QCells = %d\n" % (2 if quick else 4))
     lap = _write(os.path.join(wd, "laplemmas.cfg"), "SPECIFICATION Spec\nCONSTANTS\n  N = 3\n  CMax = %d\n" % (1 if quick else 2))
-    vals, bound = ("{0, 1}", 1) if quick else ("{0, 1, 2}", 2)
+    vals, bound = ("= {0, 1}", 1) if quick else ("<- SignedVals", 1)
     des = _write(os.path.join(wd, "design.cfg"),
-                 "SPECIFICATION Spec\nCONSTANTS\n  Ids = {1, 2}\n  OutId = 3\n  DMax = 2\n  Vals = %s\n  Bound = %d\n  Depth = 1\n"
+                 "SPECIFICATION Spec\nCONSTANTS\n  Ids = {1, 2}\n  OutId = 3\n  DMax = 2\n  Vals %s\n  Bound = %d\n  Depth = 1\n"
                  "INVARIANTS %s RaiseKeepsEverything\nCHECK_DEADLOCK FALSE\n" % (vals, bound, INV))
     chain = _write(os.path.join(wd, "design_chain.cfg"),
-                   "SPECIFICATION Spec\nCONSTANTS\n  Ids = {1, 2}\n  OutId = 3\n  DMax = %d\n  Vals = {1, 2}\n  Bound = 4\n  Depth = 2\n"
-                   "INVARIANTS %s RaiseKeepsEverything\nCHECK_DEADLOCK FALSE\n" % (1 if quick else 2, INV))
+                   "SPECIFICATION Spec\nCONSTANTS\n  Ids = {1, 2}\n  OutId = 3\n  DMax = %d\n  Vals = %s\n  Bound = %d\n  Depth = 2\n"
+                   "INVARIANTS %s RaiseKeepsEverything\nCHECK_DEADLOCK FALSE\n" % ((1, "{1, 2}", 4, INV) if quick else (2, "{1}", 1, INV)))
     jobs = [("MatLemmas", "MatLemmas", lem, 2, False), ("LapLemmas", "LapLemmas", lap, 2, False),
             ("MatrixOps/all-heaps", "MatrixOps", des, max(4, vc.NCPU - 6), False),
             ("MatrixOps/chains", "MatrixOps", chain, 4, True)]
@@ -166,7 +178,7 @@ def run(tier, seed):
 
     # 2. implementation traces
     exe = build_driver()
-    runs = [("random", ["--mode", "random", "--n", 170 if quick else 5000, "--kroncells", 120 if quick else 400]),
+    runs = [("random", ["--mode", "random", "--n", 260 if quick else 5000, "--kroncells", 120 if quick else 400]),
             ("lapexh", ["--mode", "lapexh", "--dim", 3, "--stride", 9 if quick else 1]),
             ("laprand", ["--mode", "laprand", "--n", 500 if quick else 12000])]
     combos = {}
@@ -193,11 +205,13 @@ def run(tier, seed):
     ck.assumptions = ["TLC 1.8.0; CommunityModules Json", "harness/drv_matrix.cpp reads results only through Matrix::operator()/getNumberOfRows/Columns",
                       "entries are exact in double arithmetic (small integers / dyadic rationals); every value stays below 2^31",
                       "r x 0 and 0 x c shapes are not generated (the storage classes cannot represent them consistently)"]
+    cleanup_tlc_droppings(["MatrixOps", "MatLemmas", "Lap"])
     return ck.finish()
 
 
 def replay(path):
     n_ev, rej, st = vc.validate_trace(SPEC, "MatrixOpsTrace", TRACE_CFG, path, parallel=1)
+    cleanup_tlc_droppings(["MatrixOps"])
     for rj in rej:
         vc.log("VIOLATION property=C04 replay=%s" % path)
         vc.log("  %s at event #%d: %s" % (rj.reason, rj.index, json.dumps(rj.event)[:800]))
